@@ -88,7 +88,7 @@ func verbsOfKind(k string) string {
 		return "sqxXv"
 	case "SVBytes", "ISafeBytes":
 		return "sqxXvd"
-	case "Fmter", "ErrFmter", "FmtFlags", "SafeFmt", "SafeFmtErr":
+	case "Fmter", "PadFmter", "ErrFmter", "FmtFlags", "SafeFmt", "SafeFmtErr":
 		return "abcdefgijklmnoqrstuvxyzABCDEFGHIJKLMNOQRSUVWXYZ!"
 	case "RS", "RB", "Builder", "PBuilder":
 		return "abcdefgijklmnoqrstuvxyzABCDEFGHIJKLMNOQRSUVWXYZ!"
@@ -172,7 +172,7 @@ func sharpVOK(d *D) bool {
 // ---- generator for the C05 domain --------------------------------------------------------
 
 var c05leafKinds = []string{"bool", "int", "int8", "uint8", "int64", "uint64", "uintptr", "float32", "float64", "string", "NInt", "NStr", "NBool", "NFloat", "NUint8",
-	"Stringer", "PStringer", "Err", "StdErr", "PErr", "ErrStringer", "GoStrStringer", "Fmter", "ErrFmter", "FmtFlags", "nil",
+	"Stringer", "PStringer", "Err", "StdErr", "PErr", "ErrStringer", "GoStrStringer", "Fmter", "PadFmter", "ErrFmter", "FmtFlags", "nil",
 	"SVInt", "SVStr", "SVFloat", "SVBytes", "SVStringer", "ISafeString", "ISafeInt", "ISafeUint", "ISafeFloat", "ISafeRune", "ISafeByte", "ISafeBytes",
 	"RegInt", "RegStr", "RegDur"}
 
@@ -194,7 +194,7 @@ func c05leaf(r *Rng) *D {
 	k := c05leafKinds[r.Intn(len(c05leafKinds))]
 	d := leafOfKind(r, k, c05opts())
 	switch k {
-	case "string", "NStr", "Stringer", "PStringer", "Err", "StdErr", "PErr", "ErrStringer", "GoStrStringer", "Fmter", "ErrFmter", "SVStr", "SVBytes", "SVStringer", "ISafeString", "ISafeBytes", "RegStr":
+	case "string", "NStr", "Stringer", "PStringer", "Err", "StdErr", "PErr", "ErrStringer", "GoStrStringer", "Fmter", "PadFmter", "ErrFmter", "SVStr", "SVBytes", "SVStringer", "ISafeString", "ISafeBytes", "RegStr":
 		d.S = QS(c05payload(r))
 	case "ISafeRune":
 		d.N = []int64{'a', 0x2039, '\n', 0xe9}[r.Intn(4)]
@@ -596,6 +596,7 @@ func runC05(c *Ctx) {
 		cfg, name := setRegistry(c, mask)
 		c05pointers(c, mask&1 != 0)
 		c05badVerbContainers(c, cfg)
+		c05unexported(c, cfg)
 		c.ParallelFor(int64(len(product)), func(w *Worker, i int64) { c05check(w, cfg, name, product[i], i) })
 		c.ParallelFor(nRand, func(w *Worker, i int64) {
 			r := newRng(c.Seed, 0xc05, uint64(mask), uint64(i))
